@@ -181,6 +181,7 @@ pub open spec fn cond_holds(c: Cond, d: Doc) -> bool {
 }
 pub open spec fn query_holds(q: Query, d: Doc) -> bool { forall|i: int| 0 <= i < q.conds@.len() ==> cond_holds(#[trigger] q.conds@[i], d) }
 // every document has every key the query filters on (otherwise the real code answers Err)
+pub open spec fn q_limit(q: Query) -> int { if q.limit == 0 { 50 } else { q.limit as int } }
 pub open spec fn doc_has_filter_keys(q: Query, d: Doc) -> bool {
     forall|i: int, j: int| 0 <= i < q.conds@.len() && 0 <= j < q.conds@[i].conds@.len() ==> d.field((#[trigger] q.conds@[i].conds@[j]).key@) is Some
 }
@@ -373,7 +374,12 @@ impl Query {
 //@@ end
 
 // ---- the table behind the lock: BTreeMap<String, Doc> (ASSUMED: an exact keyed table; iteration visits every entry once)
-pub ghost struct MemAbs { pub docs: Map<Seq<char>, Doc> }
+pub ghost struct MemAbs {
+    pub docs: Map<Seq<char>, Doc>,
+    // ghost results of the last `query` (what the answer is an answer TO): the enumeration of the table it saw and the ordered match list it paged
+    pub q_entries: Seq<(String, Doc)>,
+    pub q_sorted: Seq<Doc>,
+}
 #[verifier::external_body]
 pub struct DbCell { _p: u8 }
 pub open spec fn entries_of(docs: Map<Seq<char>, Doc>, es: Seq<(String, Doc)>) -> bool {
@@ -479,6 +485,305 @@ impl<T: DbDocument> Collect<T> {
     ensures
         //# M5-delete-removes-exactly-that-record
         ret is Ok && final(st).docs == old(st).docs.remove(id@),
+//@@ end
+}
+
+// ---- the whole query ---------------------------------------------------------------------------------------------------------
+pub open spec fn derefs(s: Seq<&Doc>) -> Seq<Doc> { s.map_values(|d: &Doc| *d) }
+pub open spec fn keyset(es: Seq<(String, Doc)>, p: spec_fn(Doc) -> bool) -> Set<Box<[u8]>> {
+    Set::new(|b: Box<[u8]>| exists|i: int| 0 <= i < es.len() && b == kb((#[trigger] es[i]).0@) && p(es[i].1))
+}
+pub open spec fn distinct_keys(es: Seq<(String, Doc)>) -> bool { forall|i: int, j: int| 0 <= i < j < es.len() ==> (#[trigger] es[i]).0@ != (#[trigger] es[j]).0@ }
+pub proof fn lemma_keyset_mem(es: Seq<(String, Doc)>, p: spec_fn(Doc) -> bool, i: int)
+    requires distinct_keys(es), 0 <= i < es.len(),
+    ensures keyset(es, p).contains(kb(es[i].0@)) <==> p(es[i].1)
+{
+    broadcast use axiom_kb_injective;
+    if keyset(es, p).contains(kb(es[i].0@)) {
+        let j = choose|j: int| 0 <= j < es.len() && kb(es[i].0@) == kb((#[trigger] es[j]).0@) && p(es[j].1);
+        axiom_kb_injective(es[i].0@, es[j].0@);
+        if i < j { assert(es[i].0@ != es[j].0@); } else if j < i { assert(es[j].0@ != es[i].0@); }
+    }
+}
+pub proof fn lemma_acc_and_mem<K>(fed: Seq<Set<K>>, x: K)
+    requires fed.len() >= 1
+    ensures acc_and(fed).contains(x) <==> (forall|m: int| 0 <= m < fed.len() ==> (#[trigger] fed[m]).contains(x))
+    decreases fed.len()
+{
+    reveal_with_fuel(acc_and, 2);
+    if fed.len() > 1 {
+        lemma_acc_and_mem(fed.drop_last(), x);
+        assert forall|m: int| 0 <= m < fed.len() - 1 implies fed.drop_last()[m] == fed[m] by {}
+        if acc_and(fed).contains(x) {
+            assert forall|m: int| 0 <= m < fed.len() implies (#[trigger] fed[m]).contains(x) by { if m < fed.len() - 1 { assert(fed.drop_last()[m].contains(x)); } }
+        }
+        if forall|m: int| 0 <= m < fed.len() ==> (#[trigger] fed[m]).contains(x) {
+            assert forall|m: int| 0 <= m < fed.drop_last().len() implies (#[trigger] fed.drop_last()[m]).contains(x) by { assert(fed[m].contains(x)); }
+            assert(fed[fed.len() - 1].contains(x));
+        }
+    }
+}
+pub proof fn lemma_acc_or_mem<K>(fed: Seq<Set<K>>, x: K)
+    ensures acc_or(fed).contains(x) <==> (exists|m: int| 0 <= m < fed.len() && (#[trigger] fed[m]).contains(x))
+    decreases fed.len()
+{
+    reveal_with_fuel(acc_or, 2);
+    if fed.len() > 0 {
+        lemma_acc_or_mem(fed.drop_last(), x);
+        if acc_or(fed).contains(x) {
+            if fed.last().contains(x) { assert(fed[fed.len() - 1].contains(x)); }
+            else { let m = choose|m: int| 0 <= m < fed.drop_last().len() && (#[trigger] fed.drop_last()[m]).contains(x); assert(fed[m].contains(x)); }
+        }
+        if exists|m: int| 0 <= m < fed.len() && (#[trigger] fed[m]).contains(x) {
+            let m = choose|m: int| 0 <= m < fed.len() && (#[trigger] fed[m]).contains(x);
+            if m < fed.len() - 1 { assert(fed.drop_last()[m].contains(x)); }
+        }
+    }
+}
+// the accumulated result of one condition = the ids of the documents that satisfy it
+pub proof fn lemma_cond_keyset(es: Seq<(String, Doc)>, c: Cond, fed: Seq<Set<Box<[u8]>>>)
+    requires distinct_keys(es), c.conds@.len() >= 1, fed.len() == c.conds@.len(),
+        forall|m: int| 0 <= m < fed.len() ==> #[trigger] fed[m] =~= keyset(es, |d: Doc| expr_holds(c.conds@[m], d)),
+    ensures forall|i: int| 0 <= i < es.len() ==> (cond_acc(c.r#type, fed).contains(kb((#[trigger] es[i]).0@)) <==> cond_holds(c, es[i].1)),
+        forall|b: Box<[u8]>| cond_acc(c.r#type, fed).contains(b) ==> exists|i: int| 0 <= i < es.len() && b == kb((#[trigger] es[i]).0@),
+{
+    assert forall|i: int| 0 <= i < es.len() implies (cond_acc(c.r#type, fed).contains(kb((#[trigger] es[i]).0@)) <==> cond_holds(c, es[i].1)) by {
+        let x = kb(es[i].0@);
+        assert forall|m: int| 0 <= m < fed.len() implies ((#[trigger] fed[m]).contains(x) <==> expr_holds(c.conds@[m], es[i].1)) by {
+            lemma_keyset_mem(es, |d: Doc| expr_holds(c.conds@[m], d), i);
+        }
+        match c.r#type {
+            CondType::And => { lemma_acc_and_mem(fed, x); }
+            CondType::Or => {
+                lemma_acc_or_mem(fed, x);
+                if cond_holds(c, es[i].1) { let m = choose|m: int| 0 <= m < c.conds@.len() && expr_holds(#[trigger] c.conds@[m], es[i].1); assert(fed[m].contains(x)); }
+                if exists|m: int| 0 <= m < fed.len() && (#[trigger] fed[m]).contains(x) {
+                    let m = choose|m: int| 0 <= m < fed.len() && (#[trigger] fed[m]).contains(x); assert(expr_holds(c.conds@[m], es[i].1));
+                }
+            }
+        }
+    }
+    assert forall|b: Box<[u8]>| cond_acc(c.r#type, fed).contains(b) implies exists|i: int| 0 <= i < es.len() && b == kb((#[trigger] es[i]).0@) by {
+        match c.r#type {
+            CondType::And => { lemma_acc_and_mem(fed, b); assert(fed[0].contains(b)); }
+            CondType::Or => { lemma_acc_or_mem(fed, b); let m = choose|m: int| 0 <= m < fed.len() && (#[trigger] fed[m]).contains(b); assert(fed[m].contains(b)); }
+        }
+    }
+}
+pub open spec fn matches_of(es: Seq<(String, Doc)>, q: Query) -> Seq<Doc> {
+    es.filter(|e: (String, Doc)| query_holds(q, e.1)).map_values(|e: (String, Doc)| e.1)
+}
+pub proof fn lemma_filter_agree<A>(s: Seq<A>, p: spec_fn(A) -> bool, r: spec_fn(A) -> bool)
+    requires forall|i: int| 0 <= i < s.len() ==> (p(#[trigger] s[i]) <==> r(s[i]))
+    ensures s.filter(p) == s.filter(r)
+    decreases s.len()
+{
+    reveal_with_fuel(Seq::filter, 2);
+    if s.len() > 0 {
+        assert forall|i: int| 0 <= i < s.drop_last().len() implies (p(#[trigger] s.drop_last()[i]) <==> r(s.drop_last()[i])) by { assert(s.drop_last()[i] == s[i]); }
+        lemma_filter_agree(s.drop_last(), p, r);
+        assert(p(s.last()) <==> r(s.last())) by { assert(s.last() == s[s.len() - 1]); }
+    }
+}
+pub proof fn lemma_filter_all<A>(s: Seq<A>, p: spec_fn(A) -> bool)
+    requires forall|i: int| 0 <= i < s.len() ==> p(#[trigger] s[i])
+    ensures s.filter(p) == s
+    decreases s.len()
+{
+    reveal_with_fuel(Seq::filter, 2);
+    if s.len() > 0 {
+        assert forall|i: int| 0 <= i < s.drop_last().len() implies p(#[trigger] s.drop_last()[i]) by { assert(s.drop_last()[i] == s[i]); }
+        lemma_filter_all(s.drop_last(), p);
+        assert(p(s.last())) by { assert(s.last() == s[s.len() - 1]); }
+        assert(s.drop_last().push(s.last()) =~= s);
+    }
+}
+pub proof fn lemma_filter_elems<A>(s: Seq<A>, p: spec_fn(A) -> bool)
+    ensures forall|i: int| 0 <= i < s.filter(p).len() ==> s.contains(#[trigger] s.filter(p)[i]) && p(s.filter(p)[i])
+    decreases s.len()
+{
+    reveal_with_fuel(Seq::filter, 2);
+    if s.len() > 0 {
+        lemma_filter_elems(s.drop_last(), p);
+        assert forall|i: int| 0 <= i < s.filter(p).len() implies s.contains(#[trigger] s.filter(p)[i]) && p(s.filter(p)[i]) by {
+            let sub = s.drop_last().filter(p);
+            if i < sub.len() {
+                assert(s.filter(p)[i] == sub[i]);
+                assert(s.drop_last().contains(sub[i]));
+                let j = choose|j: int| 0 <= j < s.drop_last().len() && s.drop_last()[j] == sub[i];
+                assert(s[j] == sub[i]);
+            } else {
+                assert(s.filter(p)[i] == s.last());
+                assert(s[s.len() - 1] == s.last());
+            }
+        }
+    }
+}
+pub proof fn lemma_matches_from(es: Seq<(String, Doc)>, q: Query)
+    ensures forall|i: int| 0 <= i < matches_of(es, q).len() ==> exists|j: int| 0 <= j < es.len() && #[trigger] matches_of(es, q)[i] == es[j].1
+{
+    let p = |e: (String, Doc)| query_holds(q, e.1);
+    lemma_filter_elems(es, p);
+    assert forall|i: int| 0 <= i < matches_of(es, q).len() implies exists|j: int| 0 <= j < es.len() && #[trigger] matches_of(es, q)[i] == es[j].1 by {
+        assert(es.contains(es.filter(p)[i]));
+        let j = choose|j: int| 0 <= j < es.len() && es[j] == es.filter(p)[i];
+        assert(matches_of(es, q)[i] == es[j].1);
+    }
+}
+pub open spec fn is_sorted(s: Seq<Doc>, keys: Seq<(String, bool)>) -> bool {
+    forall|i: int, j: int| 0 <= i < j < s.len() ==> !(lex_cmp(#[trigger] s[i], #[trigger] s[j], keys, keys.len() as int) is Greater)
+}
+pub open spec fn page_of<A>(s: Seq<A>, off: int, lim: int) -> Seq<A> {
+    s.subrange(if off < s.len() { off } else { s.len() as int }, if off + lim < s.len() { off + lim } else { s.len() as int })
+}
+// R7: `db.iter().map(|(_, v)| v).collect::<Vec<_>>()`: every stored document, in table order
+#[verifier::external_body]
+pub fn all_values<'a>(db: &'a Vec<(String, Doc)>) -> (r: Vec<&'a Doc>)
+    ensures derefs(r@) == db@.map_values(|e: (String, Doc)| e.1) { unimplemented!() }
+// R7: `db.iter().filter_map(|(k, v)| { if items.contains(&<id bytes of k>) { return Some(v); } None }).collect::<Vec<_>>()`
+#[verifier::external_body]
+pub fn values_in<'a>(db: &'a Vec<(String, Doc)>, items: &HashSet<Box<[u8]>>) -> (r: Vec<&'a Doc>)
+    ensures derefs(r@) == db@.filter(|e: (String, Doc)| items@.contains(kb(e.0@))).map_values(|e: (String, Doc)| e.1) { unimplemented!() }
+// R7 + R9: `rows.sort_by(<the comparator closure>)`: slice::sort_by orders by the comparator it is given (the closure is cut out and proved
+// equal to lex_cmp over q.order_by as Collect::query::order) and keeps the elements
+#[verifier::external_body]
+pub fn sort_rows(rows: &mut Vec<&Doc>, q: &Query)
+    requires forall|i: int| 0 <= i < old(rows)@.len() ==> has_keys(*(#[trigger] old(rows)@[i]), q.order_by@)
+    ensures derefs(final(rows)@).to_multiset() == derefs(old(rows)@).to_multiset(), final(rows)@.len() == old(rows)@.len(),
+        is_sorted(derefs(final(rows)@), q.order_by@) { unimplemented!() }
+// R7: `count.div_ceil(limit)`
+#[verifier::external_body]
+pub fn div_ceil_usize(a: usize, b: usize) -> (r: usize)
+    requires b > 0
+    ensures r as int == (a as int + b as int - 1) / (b as int) { unimplemented!() }
+// R7: `rows.iter().skip(o).take(l).map(|row| map_to_model::<T>(row).unwrap()).collect::<Vec<_>>()`: the records of the sub-range [o, o+l)
+#[verifier::external_body]
+pub fn page_models<T>(rows: &Vec<&Doc>, off: usize, lim: usize) -> (r: Vec<T>)
+    ensures r@ == page_of(derefs(rows@), off as int, lim as int).map_values(|d: Doc| model_of::<T>(d)) { unimplemented!() }
+
+impl<T: DbDocument> Collect<T> {
+//@@ extract file=acts/src/store/db/mem/collect.rs in="impl<T> DbCollection for Collect<T>" item="fn query" name=Collect::query
+//@@ opt attr="#[verifier::loop_isolation(false)]"
+//@@ rw R7 `Self :: Item` => `T`
+//@@ rw R11 `let db = self . db . read ( ) . unwrap ( ) ;` => `let db = db_entries(&self.db);`
+//@@ rw R7 `vec ! [ ]` => `Vec::new()`
+//@@ rw R7 `db . iter ( ) . map ( | ( _ , v ) | v ) . collect :: < Vec < _ > > ( )` => `all_values(&db)`
+//@@ rw R7 `db . iter ( ) . filter_map ( | ( k , v ) | { if items . contains ( & k . as_bytes ( ) . to_vec ( ) . into_boxed_slice ( ) ) { return Some ( v ) ; } None } ) . collect :: < Vec < _ > > ( )` => `values_in(&db, &items)`
+//@@ rw R6 `for cond in q . queries_mut ( ) $B:block` => `for cond in q.conds.iter_mut() $B`
+//@@ rw R7 `cond . conds ( ) . clone ( )` => `clone_exprs(cond.conds())`
+//@@ rw R7 `k . as_bytes ( ) . to_vec ( ) . into_boxed_slice ( )` => `key_box(k)`
+//@@ rw R7 `cond . calc ( & result )` => `cond.calc(&result, Ghost(fed))`
+//@@ rw R9 `rows . sort_by ( $C:args ) ;` => `sort_rows(&mut rows, q);`
+//@@ rw R7 `count . div_ceil ( q . limit ( ) )` => `div_ceil_usize(count, q.limit())`
+//@@ rw R7 `rows . iter ( ) . skip ( q . offset ( ) ) . take ( q . limit ( ) ) . map ( | row | map_to_model :: < T > ( row ) . unwrap ( ) ) . collect :: < Vec < _ > > ( )` => `page_models::<T>(&rows, q.offset(), q.limit())`
+//@@ spec
+    requires
+        // a query as the builder makes it: no condition evaluated yet, every condition has at least one expression
+        forall|j: int| 0 <= j < q.conds@.len() ==> !(#[trigger] q.conds@[j]).calculated && q.conds@[j].conds@.len() >= 1,
+        // every stored document has the keys the query filters and orders on (a record type has one key set: U-memdoc)
+        forall|k: Seq<char>| old(st).docs.dom().contains(k) ==> doc_has_filter_keys(*q, #[trigger] old(st).docs[k]) && has_keys(old(st).docs[k], q.order_by@),
+        q.offset < usize::MAX,
+    ensures
+        //# Q0-a-query-reads-only-and-is-answered
+        ret is Ok && final(st).docs == old(st).docs && entries_of(old(st).docs, final(st).q_entries),
+        //# Q1-exactly-the-records-satisfying-the-filter
+        final(st).q_sorted.to_multiset() == matches_of(final(st).q_entries, *q).to_multiset(),
+        //# Q5-ordered-by-the-requested-keys
+        q.order_by@.len() > 0 ==> is_sorted(final(st).q_sorted, q.order_by@),
+        //# Q5-table-order-when-no-key-is-requested
+        q.order_by@.len() == 0 ==> final(st).q_sorted == matches_of(final(st).q_entries, *q),
+        //# Q3-the-true-total-count
+        ret is Ok ==> ret->Ok_0.count == matches_of(final(st).q_entries, *q).len(),
+        //# Q3-paged-by-offset-and-limit
+        ret is Ok ==> ret->Ok_0.rows@ == page_of(final(st).q_sorted, q.offset as int, q_limit(*q)).map_values(|d: Doc| model_of::<T>(d)),
+        //# Q3-page-arithmetic
+        ret is Ok ==> ret->Ok_0.page_size as int == q_limit(*q) && ret->Ok_0.page_count as int == (ret->Ok_0.count as int + q_limit(*q) - 1) / q_limit(*q)
+            && ret->Ok_0.page_num as int == q.offset as int / q_limit(*q) + 1,
+//@@ proof at=start
+        let ghost q0 = *q;
+        let ghost mut fed: Seq<Set<Box<[u8]>>> = Seq::empty();
+        let ghost mut es: Seq<(String, Doc)> = Seq::empty();
+//@@ proof after=db_entries#1
+        proof {
+            es = db@;
+            assert(distinct_keys(es));
+            assert forall|i: int| 0 <= i < es.len() implies doc_has_filter_keys(q0, (#[trigger] es[i]).1) && has_keys(es[i].1, q0.order_by@) by { assert(old(st).docs.dom().contains(es[i].0@)); }
+        }
+//@@ proof after=all_values#1
+            proof {
+                assert forall|i: int| 0 <= i < es.len() implies (|e: (String, Doc)| query_holds(q0, e.1))(#[trigger] es[i]) by {}
+                lemma_filter_all(es, |e: (String, Doc)| query_holds(q0, e.1));
+            }
+//@@ loop 1
+        invariant
+            //# conds-evaluated-so-far
+            __m1 <= q.conds@.len() && q.conds@.len() == q0.conds@.len() && db@ == es && distinct_keys(es)
+                && (forall|i: int| 0 <= i < es.len() ==> doc_has_filter_keys(q0, (#[trigger] es[i]).1))
+                && (forall|j: int| 0 <= j < q0.conds@.len() ==> !(#[trigger] q0.conds@[j]).calculated && q0.conds@[j].conds@.len() >= 1)
+                && (forall|j: int| __m1 <= j < q.conds@.len() ==> #[trigger] q.conds@[j] == q0.conds@[j])
+                && (forall|j: int, i: int| 0 <= j < __m1 && 0 <= i < es.len() ==> ((#[trigger] q.conds@[j]).result@.contains(kb((#[trigger] es[i]).0@)) <==> cond_holds(q0.conds@[j], es[i].1)))
+                && (forall|j: int, b: Box<[u8]>| 0 <= j < __m1 && (#[trigger] q.conds@[j]).result@.contains(b) ==> exists|i: int| 0 <= i < es.len() && b == kb((#[trigger] es[i]).0@)),
+        decreases q.conds@.len() - __m1
+//@@ proof at=loop1
+                let ghost c0 = q0.conds@[__m1 as int];
+                proof { fed = Seq::empty(); }
+//@@ loop 2
+        invariant
+            //# exprs-evaluated-so-far
+            __v2@ == c0.conds@ && cond.r#type == c0.r#type && cond.conds == c0.conds && fed.len() == __i2 && cond.calculated == (__i2 > 0)
+                && (__i2 > 0 ==> cond.result@ =~= cond_acc(c0.r#type, fed)) && db@ == es && distinct_keys(es) && c0 == q0.conds@[__m1 as int] && __m1 < q0.conds@.len()
+                && (forall|i: int| 0 <= i < es.len() ==> doc_has_filter_keys(q0, (#[trigger] es[i]).1))
+                && (forall|m: int| 0 <= m < __i2 ==> #[trigger] fed[m] =~= keyset(es, |d: Doc| expr_holds(c0.conds@[m], d))),
+//@@ proof at=loop2
+                    let ghost e0 = c0.conds@[__i2 as int - 1];
+//@@ loop 3
+        invariant
+            //# ids-of-the-documents-the-expression-holds-for
+            __v3@ == es && *expr == e0 && e0 == c0.conds@[__i2 as int - 1] && c0 == q0.conds@[__m1 as int] && 0 < __i2 <= c0.conds@.len() && __m1 < q0.conds@.len()
+                && (forall|i: int| 0 <= i < es.len() ==> doc_has_filter_keys(q0, (#[trigger] es[i]).1))
+                && result@ =~= Set::new(|b: Box<[u8]>| exists|i: int| 0 <= i < __i3 && b == kb((#[trigger] es[i]).0@) && expr_holds(e0, es[i].1)),
+//@@ proof at=loop3
+                        proof { assert(doc_has_filter_keys(q0, es[__i3 as int - 1].1)); assert(q0.conds@[__m1 as int].conds@[__i2 as int - 1] == e0); }
+//@@ proof after=calc#1
+                    proof {
+                        assert(result@ =~= keyset(es, |d: Doc| expr_holds(e0, d)));
+                        fed = fed.push(result@);
+                    }
+//@@ proof at=afterloop2
+                proof {
+                    lemma_cond_keyset(es, c0, fed);
+                    assert(cond.result@ =~= cond_acc(c0.r#type, fed));
+                }
+//@@ proof after=calc#2
+            proof {
+                let qs = query_results(q.conds@);
+                assert forall|i: int| 0 <= i < es.len() implies (items@.contains(kb((#[trigger] es[i]).0@)) <==> query_holds(q0, es[i].1)) by {
+                    lemma_acc_and_mem(qs, kb(es[i].0@));
+                    assert forall|j: int| 0 <= j < qs.len() implies ((#[trigger] qs[j]).contains(kb(es[i].0@)) <==> cond_holds(q0.conds@[j], es[i].1)) by { assert(qs[j] == q.conds@[j].result@); }
+                    if query_holds(q0, es[i].1) { assert forall|j: int| 0 <= j < qs.len() implies (#[trigger] qs[j]).contains(kb(es[i].0@)) by { assert(cond_holds(q0.conds@[j], es[i].1)); } }
+                    if items@.contains(kb(es[i].0@)) { assert forall|j: int| 0 <= j < q0.conds@.len() implies cond_holds(#[trigger] q0.conds@[j], es[i].1) by { assert(qs[j].contains(kb(es[i].0@))); } }
+                }
+            }
+//@@ proof after=values_in#1
+                proof {
+                    lemma_filter_agree(es, |e: (String, Doc)| items@.contains(kb(e.0@)), |e: (String, Doc)| query_holds(q0, e.1));
+                }
+//@@ proof before=is_empty#1
+        let ghost unsorted = derefs(rows@);
+        proof {
+            assert(unsorted == matches_of(es, q0));
+            lemma_matches_from(es, q0);
+            assert forall|i: int| 0 <= i < rows@.len() implies has_keys(*(#[trigger] rows@[i]), q0.order_by@) by {
+                assert(derefs(rows@)[i] == *rows@[i]);
+                let j = choose|j: int| 0 <= j < es.len() && matches_of(es, q0)[i] == es[j].1;
+                assert(has_keys(es[j].1, q0.order_by@));
+            }
+        }
+//@@ proof before=Ok#1
+        proof {
+            st.q_entries = es;
+            st.q_sorted = derefs(rows@);
+        }
 //@@ end
 }
 
